@@ -37,7 +37,18 @@ pub enum Case {
     /// never terminated; delivered in segments of `seg` bytes (0 = whole)
     Head { n_headers: u32, value_len: u32, name_len: u8, terminated: bool, seg: u32, bare_line: bool },
     /// one request with a body of `len` bytes against a slow / absent consumer
-    Body { len: u32, chunked: bool, chunk: u32, consumer: Consumer, hold_ms: u16, seg: u32 },
+    Body {
+        len: u32,
+        chunked: bool,
+        chunk: u32,
+        consumer: Consumer,
+        hold_ms: u16,
+        seg: u32,
+        /// > 0: the upload is pipelined behind a `GET /slow` whose handler takes this many ms, so
+        /// it sits in the dispatcher's queue (no consumer yet) while its body keeps arriving
+        #[serde(default)]
+        behind_ms: u16,
+    },
     /// `n` pipelined minimal requests; the first handler sleeps `first_delay_ms`; the socket accepts
     /// nothing for `block_ms`
     Pipeline { n: u32, pad: u8, first_delay_ms: u16, per_delay_ms: u8, block_ms: u16, seg: u32 },
@@ -99,14 +110,16 @@ fn case_strategy(kind: u8) -> BoxedStrategy<Case> {
             ],
             prop_oneof![Just(0u16), 1u16..50, 50u16..2000],
             seg_len(),
+            prop_oneof![3 => Just(0u16), 1 => 1u16..50, 2 => 50u16..3000],
         )
-            .prop_map(|(len, chunked, chunk, consumer, hold_ms, seg)| Case::Body {
+            .prop_map(|(len, chunked, chunk, consumer, hold_ms, seg, behind_ms)| Case::Body {
                 len,
                 chunked,
                 chunk,
                 consumer,
                 hold_ms,
                 seg,
+                behind_ms,
             })
             .boxed(),
         2 => (
@@ -297,7 +310,7 @@ pub fn run_case(_cfg: &RunCfg, case: &Case) -> Verdict {
                 other => v.fail_with(format!("head of {head_len} bytes answered {other:?}")),
             }
         }
-        Case::Body { len, chunked, chunk, consumer, hold_ms, seg } => {
+        Case::Body { len, chunked, chunk, consumer, hold_ms, seg, behind_ms } => {
             let framing = if *chunked {
                 let c = (*chunk).max(1);
                 // bound the number of chunk headers (a 1-byte chunk stream is mostly framing)
@@ -325,9 +338,12 @@ pub fn run_case(_cfg: &RunCfg, case: &Case) -> Verdict {
                 body_style: 3,
                 name_case: 0,
             };
-            let rendered = httpwire::render_pipeline(&[req]);
+            let behind = *behind_ms > 0;
+            let rendered = if behind { httpwire::render_pipeline(&[ReqSpec::get("/slow"), req]) } else { httpwire::render_pipeline(&[req]) };
             let total = rendered.bytes.len();
-            let head_len = rendered.reqs[0].head_end - rendered.reqs[0].start;
+            let up = rendered.reqs.len() - 1;
+            let head_len = rendered.reqs[up].head_end - rendered.reqs[up].start;
+            let first_len = if behind { rendered.reqs[0].end - rendered.reqs[0].start } else { 0 };
             let (read, pace, pre) = match consumer {
                 Consumer::Never => (ReadProg::Hold, 0u16, *hold_ms),
                 Consumer::Slow(p) => (ReadProg::All, *p as u16, 0),
@@ -347,10 +363,18 @@ pub fn run_case(_cfg: &RunCfg, case: &Case) -> Verdict {
             let mut ops = deliver(total, *seg);
             ops.push(PeerOp::WaitClose(1_800_000));
             ops.push(PeerOp::Eof);
-            let mut sc = Scenario::new(SrvCfg::default(), vec![prog], rendered.bytes, ops);
+            let progs = if behind {
+                let mut slow = HandlerProg::simple();
+                slow.pre_delay_ms = *behind_ms;
+                slow.resp = simple_resp();
+                vec![slow, prog]
+            } else {
+                vec![prog]
+            };
+            let mut sc = Scenario::new(SrvCfg::default(), progs, rendered.bytes, ops);
             sc.capture_bodies = false;
-            sc.head_lens = vec![head_len];
-            sc.body_scale = ((total - head_len) as u64, (*len).max(1) as u64);
+            sc.head_lens = if behind { vec![first_len, head_len] } else { vec![head_len] };
+            sc.body_scale = ((total - head_len - first_len) as u64, (*len).max(1) as u64);
             let out = h1engine::run(sc);
             let slow = !matches!(consumer, Consumer::All);
             let v = Verdict::ok()
@@ -360,7 +384,8 @@ pub fn run_case(_cfg: &RunCfg, case: &Case) -> Verdict {
                 .class_if(matches!(consumer, Consumer::Never), "consumer-never-reads")
                 .class_if(matches!(consumer, Consumer::Slow(_)), "consumer-slow")
                 .class_if(matches!(consumer, Consumer::UpTo(_)), "consumer-stops")
-                .class_if(matches!(consumer, Consumer::Drop), "consumer-drops");
+                .class_if(matches!(consumer, Consumer::Drop), "consumer-drops")
+                .class_if(behind, "upload-queued-behind-slow-request");
             if let ConnEnd::Panicked(p) = &out.end {
                 return v.fail_with(format!("panic: {p}"));
             }
@@ -372,7 +397,10 @@ pub fn run_case(_cfg: &RunCfg, case: &Case) -> Verdict {
             // payload dropped at once is discarded from the start: discarded bytes are not held
             let inflight = match consumer {
                 Consumer::All | Consumer::Slow(_) => Some(out.max_inflight),
-                Consumer::Never | Consumer::UpTo(_) => out.inflight_marks.first().copied(),
+                // (marks are running maxima taken when a handler returns: index `up` is the upload's)
+                Consumer::Never | Consumer::UpTo(_) => out.inflight_marks.get(up).copied(),
+                // while the upload waits in the queue it has no consumer and back-pressure holds
+                Consumer::Drop if behind => out.inflight_marks.first().copied(),
                 Consumer::Drop => None,
             };
             if let Some(m) = inflight {
@@ -383,7 +411,7 @@ pub fn run_case(_cfg: &RunCfg, case: &Case) -> Verdict {
                 }
             }
             if matches!(consumer, Consumer::All | Consumer::Slow(_)) {
-                let got = out.reqs.first().map(|r| r.body_len).unwrap_or(0);
+                let got = out.reqs.get(up).map(|r| r.body_len).unwrap_or(0);
                 if got != *len as usize {
                     return v.fail_with(format!("handler read {got} of {len} body bytes"));
                 }
@@ -549,7 +577,7 @@ pub fn run_case(_cfg: &RunCfg, case: &Case) -> Verdict {
 pub fn run(cfg: &RunCfg) -> Report {
     let mut rep = Report::new("C05");
     rep.rule = format!(
-        "cases = (a) request heads of 1 B..600 KiB (one huge header / up to 20 000 small headers / endless first line / never terminated), (b) bodies of 0.2..12 MB (Content-Length and chunked with chunk sizes 1 B..1 MB) against consumers that never read / read slowly / stop after n bytes / drop the payload, (c) 20..60 000 pipelined minimal requests behind slow handlers and a blocked socket, (d) streaming responses of up to 6 MB in chunks of 1 B..64 KiB with h1_write_buffer_size 1..1 MiB against a socket that accepts 1..20 000 bytes per refusal; all with unlimited peer send rate and segment sizes whole / 64 KiB / random; \
+        "cases = (a) request heads of 1 B..600 KiB (one huge header / up to 20 000 small headers / endless first line / never terminated), (b) bodies of 0.2..12 MB (Content-Length and chunked with chunk sizes 1 B..1 MB) against consumers that never read / read slowly / stop after n bytes / drop the payload, optionally queued behind a request whose handler takes 1-3000 ms, (c) 20..60 000 pipelined minimal requests behind slow handlers and a blocked socket, (d) streaming responses of up to 6 MB in chunks of 1 B..64 KiB with h1_write_buffer_size 1..1 MiB against a socket that accepts 1..20 000 bytes per refusal; all with unlimited peer send rate and segment sizes whole / 64 KiB / random; \
          non-trivial = input (or response) volume >= 10x the relevant bound (2x for pipelines) with a consumer or socket slower than the producer, or a head over the limit / never terminated; bounds: in-flight bytes <= {INFLIGHT_BOUND}, queued requests <= 16 + 2*(256 KiB/request size) + 2, body bytes pulled ahead of the socket <= write buffer + one chunk + 1 KiB, head refused with 431 after at most 256 KiB + 8 KiB taken"
     );
     rep.assumptions = vec![
